@@ -156,8 +156,10 @@ class _ExecutorFlags:
     def flag_as_shutting_down(self, kill_workers=None):
         with self.shutdown_lock:
             self.shutdown = True
-            if kill_workers is not None:
-                self.kill_workers = kill_workers
+            if kill_workers:
+                # A request to kill the workers is never withdrawn by a later
+                # call (e.g. the shutdown(wait=True) issued by __exit__).
+                self.kill_workers = True
 
     def flag_as_broken(self, broken):
         with self.shutdown_lock:
